@@ -110,10 +110,19 @@ type srcGen struct {
 	vars     map[string]string // those that are set
 	useRefs  int               // percent of string values that carry ${…}
 	badSrc   string            // the one source that gets a value its validator rejects ("" none)
+	// coincidence regime: every source of this start-up takes its value from a tiny pool, so that
+	// file = env, file = flag, specific option = file ≠ generic option … all occur
+	spool []string            // str
+	lpool [][]string          // strs: element lists
+	mpool []map[string]string // smap
+	npool []string            // num
 }
 
 func (g *srcGen) str(src string) string {
 	r := g.r
+	if g.spool != nil {
+		return g.spool[r.Intn(len(g.spool))]
+	}
 	if g.validate {
 		if g.badSrc == src {
 			return "bad-" + strings.ToLower(src)
@@ -181,11 +190,17 @@ func (g *srcGen) fileVal(src string) val {
 	case "str":
 		return strVal(g.str(src))
 	case "num":
+		if g.npool != nil {
+			return val{K: 'n', S: g.npool[r.Intn(len(g.npool))]}
+		}
 		if !g.validate && r.Chance(10) {
 			return val{K: 'n', S: "0"}
 		}
 		return val{K: 'n', S: fmt.Sprint(1000 + r.Intn(9000))}
 	case "strs":
+		if g.lpool != nil {
+			return listVal(append([]string{}, g.lpool[r.Intn(len(g.lpool))]...))
+		}
 		n := r.Pick(10, 40, 35, 15)
 		l := []string{}
 		for i := 0; i < n; i++ {
@@ -193,6 +208,9 @@ func (g *srcGen) fileVal(src string) val {
 		}
 		return listVal(l)
 	case "smap":
+		if g.mpool != nil {
+			return mapVal(g.mpool[r.Intn(len(g.mpool))])
+		}
 		n := r.Pick(10, 40, 35, 15)
 		m := map[string]string{}
 		for i := 0; i < n; i++ {
@@ -201,6 +219,11 @@ func (g *srcGen) fileVal(src string) val {
 		return mapVal(m)
 	}
 	return absent
+}
+
+func sortedKeys(m map[string]string) []string {
+	v := mapVal(m)
+	return v.MK
 }
 
 // flagVals: the raw values of the occurrences of the option's flag
@@ -216,11 +239,21 @@ func (g *srcGen) flagVals(src string, delim string) []string {
 		}
 		return []string{g.str(src)}
 	case "num":
+		if g.npool != nil {
+			return []string{g.npool[r.Intn(len(g.npool))]}
+		}
 		if !g.validate && r.Chance(10) {
 			return []string{"0"}
 		}
 		return []string{fmt.Sprint(1000 + r.Intn(9000))}
 	case "strs":
+		if g.lpool != nil {
+			l := g.lpool[r.Intn(len(g.lpool))]
+			if delim != "" && r.Chance(50) {
+				return []string{strings.Join(l, delim)} // one occurrence, delimiter separated
+			}
+			return append([]string{}, l...) // one occurrence per element
+		}
 		n := r.Pick(0, 50, 35, 15)
 		var out []string
 		for i := 0; i < n; i++ {
@@ -232,6 +265,14 @@ func (g *srcGen) flagVals(src string, delim string) []string {
 		}
 		return out
 	case "smap":
+		if g.mpool != nil {
+			m := g.mpool[r.Intn(len(g.mpool))]
+			var out []string
+			for _, k := range sortedKeys(m) {
+				out = append(out, k+":"+m[k])
+			}
+			return out
+		}
 		n := r.Pick(0, 50, 35, 15)
 		var out []string
 		for i := 0; i < n; i++ {
@@ -257,11 +298,21 @@ func (g *srcGen) envVal(src string, delim string) string {
 	case "str":
 		return g.str(src)
 	case "num":
+		if g.npool != nil {
+			return g.npool[r.Intn(len(g.npool))]
+		}
 		if !g.validate && r.Chance(10) {
 			return "0"
 		}
 		return fmt.Sprint(1000 + r.Intn(9000))
 	case "strs":
+		if g.lpool != nil {
+			d := delim
+			if d == "" {
+				d = ","
+			}
+			return strings.Join(g.lpool[r.Intn(len(g.lpool))], d)
+		}
 		n := r.Pick(0, 35, 40, 25)
 		var p []string
 		for i := 0; i < n; i++ {
@@ -272,6 +323,18 @@ func (g *srcGen) envVal(src string, delim string) string {
 		}
 		return strings.Join(p, delim)
 	case "smap":
+		if g.mpool != nil {
+			m := g.mpool[r.Intn(len(g.mpool))]
+			var p []string
+			for _, k := range sortedKeys(m) {
+				p = append(p, k+":"+m[k])
+			}
+			d := delim
+			if d == "" {
+				d = ","
+			}
+			return strings.Join(p, d)
+		}
 		n := r.Pick(0, 35, 40, 25)
 		var p []string
 		for i := 0; i < n; i++ {
@@ -372,6 +435,45 @@ func genLoad(r *kit.Rng, s *setting, combo int) string {
 			}
 		}
 	}
+	// coincidence regime (about half of the start-ups; always more often for fallback chains)
+	coincide := r.Chance(45) || (len(s.Opts) > 1 && r.Chance(50))
+	if coincide {
+		g.badSrc = ""
+		if g.validate {
+			g.useRefs = 0 // pool values go to every source, also to options shared with other settings
+		}
+		n := 2 + r.Intn(2)
+		switch s.Kind {
+		case "str":
+			var pool []string
+			for i := 0; len(pool) < n && i < 20; i++ {
+				if v := g.str(fmt.Sprintf("P%d", len(pool))); v != "" {
+					pool = append(pool, v)
+				}
+			}
+			g.spool = pool
+		case "num":
+			for i := 0; i < n; i++ {
+				g.npool = append(g.npool, fmt.Sprint(1000+r.Intn(9000)))
+			}
+		case "strs":
+			for i := 0; i < n; i++ {
+				var l []string
+				for j, m := 0, 1+r.Intn(3); j < m; j++ {
+					l = append(l, g.elem(fmt.Sprintf("P%d", i), j))
+				}
+				g.lpool = append(g.lpool, l)
+			}
+		case "smap":
+			for i := 0; i < n; i++ {
+				m := map[string]string{}
+				for j, c := 0, 1+r.Intn(3); j < c; j++ {
+					m[fmt.Sprintf("k%d", r.Intn(4))] = g.elem(fmt.Sprintf("P%d", i), j)
+				}
+				g.mpool = append(g.mpool, m)
+			}
+		}
+	}
 	var b strings.Builder
 	mode := "nv"
 	if g.validate {
@@ -398,8 +500,11 @@ func genLoad(r *kit.Rng, s *setting, combo int) string {
 		var ev *string
 		src := fmt.Sprintf("%d", i)
 		give, giveEnv := hasFlag, hasEnv
-		if i > 0 { // a second name in the cmdenv tag: present now and then
+		if i > 0 { // a later name in the cmdenv tag (fallback chain): present now and then
 			give, giveEnv = r.Chance(30), r.Chance(30)
+			if coincide {
+				give, giveEnv = r.Chance(50), r.Chance(50)
+			}
 		}
 		if give {
 			fv = g.flagVals("F"+src, o.Delim)
